@@ -128,6 +128,9 @@ def cases(tier, seed):
     for c in out[1 :: (5 if q else 3)]:
         if 2 in c["placement"]:
             extra.append(dict(c, resize=c["placement"].index(2)))
+    # the chops arrive through a chop - unchop - chop history on every axis of every block
+    for c in out[5 :: (9 if q else 5)]:
+        extra.append(dict(c, rechop=True))
     # blocks of very different sizes (counts only): a long block followed by a short one and the other way round,
     # along x and along y
     for c in out[4 :: (15 if q else 9)]:
@@ -162,6 +165,8 @@ def script_of(case):
     script = {"cells": cells, "numbering": case["numbering"], "chops": chops, "order": list(range(len(cells)))}
     if case.get("spacing"):
         script["geometry"] = {"spacing": SPACINGS[case["spacing"]]}
+    if case.get("rechop"):
+        script["rechop"] = True
     if case.get("complete"):
         fam = gradlab.Families(script)
         chopped = {fam.find((b, g)) for b, g, _ in chops}
@@ -257,7 +262,7 @@ def run_case(case):
     kind, payload = gradlab.write_and_observe(mesh)
     coords = {k: case[k] for k in ("cells", "numbering", "placement")}
     coords["complete"] = bool(case.get("complete"))
-    for k in ("computed", "multi", "multi_eq", "resize", "spacing"):
+    for k in ("computed", "multi", "multi_eq", "resize", "spacing", "rechop"):
         if k in case:
             coords[k] = case[k]
     coords["verdict"] = verdict
